@@ -933,6 +933,12 @@ func kinds() *World {
 			"lt_m":   {IsOptional: true, Constraint: schema.LiteralType{Type: cty.Map(cty.Number)}},
 			"lt_o":   {IsOptional: true, Constraint: schema.LiteralType{Type: cty.Object(map[string]cty.Type{"k": cty.String, "n": cty.Number})}},
 			"lt_t":   {IsOptional: true, Constraint: schema.LiteralType{Type: cty.Tuple([]cty.Type{cty.String, cty.Bool})}},
+			"td5":    {IsOptional: true, Constraint: schema.TypeDeclaration{}},
+			"any_c":  {IsOptional: true, Constraint: schema.AnyExpression{OfType: cty.String}},
+			"any_s2": {IsOptional: true, Constraint: schema.AnyExpression{OfType: cty.String}},
+			"mp2":    {IsOptional: true, Constraint: schema.Map{Elem: schema.AnyExpression{OfType: cty.Number}, AllowInterpolatedKeys: true}},
+			"mp3":    {IsOptional: true, Constraint: schema.Map{Elem: schema.AnyExpression{OfType: cty.Number}}},
+			"any_d2": {IsOptional: true, Constraint: schema.AnyExpression{OfType: cty.DynamicPseudoType}},
 		},
 		Blocks: map[string]*schema.BlockSchema{
 			"thing": {
@@ -988,9 +994,13 @@ lt_t = ["t", false]
 thing "größe" {
   s = "multi-byte label used as a reference step"
 }
-any_s = thing.größe.s
-mp = { (null) = 1, (true ? null : "x") = 2, "ключ" = 3 }
-any_d = { (null) = thing.a.s, k = [thing.größe.s] }
+any_s2 = thing.größe.s
+mp2 = { (null) = 1, (true ? null : "x") = 2, "ключ" = 3  }
+mp3 = {
+  one = 1 
+  two = 2
+}
+any_d2 = { (null) = thing.a.s, k = [thing.größe.s] }
 thing "a" {
   s = "ß"
   n = 1
